@@ -29,7 +29,9 @@ func (env *Zlisp) ImportPackageBuilder() {
 	env.ImportMinimalBuilder()
 	env.AddBuilder("infixExpand", InfixBuilder)
 	env.AddBuilder("infix", InfixBuilder)
-	env.AddBuilder("sys", SystemBuilder)
+	if !env.sandboxed {
+		env.AddBuilder("sys", SystemBuilder) // runs a shell command
+	}
 	env.AddBuilder("struct", StructBuilder)
 	env.AddBuilder("func", FuncBuilder)
 	env.AddBuilder("method", FuncBuilder)
@@ -40,7 +42,9 @@ func (env *Zlisp) ImportPackageBuilder() {
 	env.AddBuilder("expectError", ExpectErrorBuilder)
 	//	env.AddBuilder("&", AddressOfBuilder)
 
-	env.AddBuilder("import", ImportPackageBuilder)
+	if !env.sandboxed {
+		env.AddBuilder("import", ImportPackageBuilder) // reads files
+	}
 
 	env.AddFunction("sliceOf", SliceOfFunction)
 	env.AddFunction("ptr", PointerToFunction)
